@@ -75,7 +75,8 @@ def product_facts(a, b, v):
     for x, y in ((a, b), (b, a)):
         out.extend([z3.Implies(z3.And(x >= 0, y >= 0), v >= 0), z3.Implies(z3.And(x <= 0, y <= 0), v >= 0), z3.Implies(z3.And(x >= 0, y <= 0), v <= 0),
                     z3.Implies(x == 1, v == y), z3.Implies(z3.And(x >= 0, x <= 1, y >= 0), v <= y), z3.Implies(z3.And(x >= 0, x < 1, y > 0), v < y),
-                    z3.Implies(z3.And(x >= 1, y >= 0), v >= y), z3.Implies(z3.And(x > 0, y > 0), v > 0)])
+                    z3.Implies(z3.And(x >= 1, y >= 0), v >= y), z3.Implies(z3.And(x > 0, y > 0), v > 0),
+                    z3.Implies(z3.And(x >= 0, y <= -1), v <= -x), z3.Implies(z3.And(x <= 0, y <= -1), v >= -x)])
     out.append((v == 0) == z3.Or(a == 0, b == 0))
     return out
 
@@ -89,7 +90,8 @@ def shared_factor_facts(x, y, y2, v, w):
 
 def abstract_products(fmls):
     """Sound weakening for nonlinear arithmetic: every product x * y of two non-constant factors (outside quantifiers) is replaced
-    by a fresh variable v constrained only by VALID facts about products (signs, zero, unit factors, 0 <= x <= 1 scaling,
+    by a fresh variable v, and every integer x div d / x mod d with a non-constant divisor by fresh q / r, constrained only by VALID
+    facts about products / quotients (signs, zero, unit factors, 0 <= x <= 1 scaling,
     monotonicity in a shared factor). If the result - linear arithmetic - is unsatisfiable, so is the original: the original's
     products satisfy every added fact. Returns (new formulas, number of products) - sat / unknown answers on it mean nothing."""
     memo, prods, facts = {}, {}, []
@@ -106,6 +108,19 @@ def abstract_products(fmls):
         prods[key] = (a, b, v)
         facts.extend(product_facts(a, b, v))
         return v
+
+    divmods = {}
+
+    def divmod_(x, d):
+        """(q, r) for integer x div d / x mod d with a non-constant divisor: fresh integers with the valid facts (for d > 0)
+        x = d * q + r and 0 <= r < d - the product d * q itself abstracted"""
+        key = (x.get_id(), d.get_id())
+        if key not in divmods:
+            ctr[0] += 1
+            q, r = z3.Int("quot!%d" % ctr[0]), z3.Int("rem!%d" % ctr[0])
+            facts.append(z3.Implies(d > 0, z3.And(x == prod(d, q) + r, r >= 0, r < d)))
+            divmods[key] = (x, d, q, r)
+        return divmods[key][2], divmods[key][3]
 
     def walk(t):
         k = t.get_id()
@@ -129,6 +144,9 @@ def abstract_products(fmls):
                         r = c * r
                 else:
                     r = t.decl()(*kids)
+            elif t.decl().kind() in (z3.Z3_OP_IDIV, z3.Z3_OP_MOD) and len(kids) == 2 and not _is_num(kids[1]) and z3.is_int(kids[0]):
+                q, rm = divmod_(kids[0], kids[1])
+                r = q if t.decl().kind() == z3.Z3_OP_IDIV else rm
             else:
                 r = t.decl()(*kids)
         memo[k] = (t, r)
@@ -143,7 +161,7 @@ def abstract_products(fmls):
             for (x, y), (x2, y2) in (((a, b), (c, d)), ((a, b), (d, c)), ((b, a), (c, d)), ((b, a), (d, c))):
                 if x.get_id() == x2.get_id() and y.sort() == y2.sort():
                     facts.extend(shared_factor_facts(x, y, y2, v, w))
-    return out + facts, len(prods)
+    return out + facts, len(prods) + len(divmods)
 
 
 def check_unsat(fmls, timeout_ms=30000, cvc5_fallback=True, crosscheck=False, want_model=True, tactic=None):
